@@ -97,6 +97,14 @@ class C17Acpc(Monitor):
             return
         if any(type(o).__name__ == 'HoleCardsShowingOrMucking' and o.hole_cards and not all(o.hole_cards) for o in s.operations):
             return
+        dealt = {}
+        for o in s.operations:
+            if type(o).__name__ == 'HoleDealing':
+                dealt.setdefault(o.player_index, []).extend(o.cards)
+        if any(type(o).__name__ == 'HoleCardsShowingOrMucking' and o.hole_cards
+               and any(c not in dealt.get(o.player_index, []) for c in o.hole_cards) for o in s.operations):
+            return      # a show that names other cards than the player was dealt rewrites his hand: the
+                        # history no longer tells the cards the hand was played with
         names = [type(o).__name__ for o in s.operations]
         if 'HoleCardsShowingOrMucking' in names[:names.index('HoleDealing') if 'HoleDealing' in names else len(names)]:
             return      # finding F17 (C16): a show before the deal
@@ -123,7 +131,7 @@ class C17Acpc(Monitor):
                     line = None
                 if line is not None:
                     f = line.split(':')
-                    self._check_fields(s, replayed, played, f[2], f[3], None, True, tag, 'Pluribus')
+                    split = self._check_fields(s, replayed, played, f[2], f[3], None, True, tag, 'Pluribus')
                     want = '|'.join(str(replayed.stacks[i] - s.starting_stacks[i]) for i in range(n))
                     if f[4] != want or (plain and not s.status and [int(x) for x in f[4].split('|')] != list(s.payoffs)):
                         self.report('payoffs', tag + 'pluribus_payoffs', f'result field {f[4]}, payoffs of the played hand {list(s.payoffs)}')
@@ -133,7 +141,9 @@ class C17Acpc(Monitor):
                     # a voluntary muck at the showdown is not something the line can say: the line shows
                     # every seat's cards and its reader tables them all
                     if not s.status and plain and not mucked:
-                        self._roundtrip(game, s, hh, line, tag)
+                        # a line with one `/` per dealing action (finding F20) has too many streets to be
+                        # read back: the same defect, reported under the same signature prefix
+                        self._roundtrip(game, s, hh, line, ('split_street:' if split else '') + tag)
             # ---- ACPC lines, every viewer seat ------------------------------------------------------
             for pos in range(n):
                 try:
@@ -163,7 +173,7 @@ class C17Acpc(Monitor):
         toks = lex(actions)
         if toks is None:
             self.report('actions', 'unreadable', f'{what}: action field {actions!r}')
-            return
+            return False
         want = []
         prev_board = False
         split = False     # a street was dealt by more than one board-dealing operation
@@ -230,6 +240,7 @@ class C17Acpc(Monitor):
             prev_b = nme == 'BoardDealing' or (prev_b and nme == 'NoOperation')
         if boards != bw:
             self.report('cards', ('split_street:' if split else '') + tag + 'board_field', f'{what}: board field {boards}, dealt {bw}')
+        return split
 
     # -- parse the Pluribus line back -----------------------------------------------------------------
     def _roundtrip(self, game, s, hh, line, tag):
